@@ -778,6 +778,10 @@ class Exec:
       return VEmptyDict()
     if all(isinstance(k, VStr) for k in keys):
       return VConstDict({k.s: v for k, v in zip(keys, vals)})
+    if all(isinstance(v, VStr) for v in vals):
+      # {column: 'sum', ...}: an option mapping only ever handed to a library
+      return VOpaque(z3.Const(self.ctx.sym('optdict'), sort_named('OptDict')),
+                     'OptDict')
     return dict_from_items(self, keys, vals, node)
 
   def eval_Attribute(self, node, env):
